@@ -95,6 +95,7 @@ type runner struct {
 	stopObservers bool
 	rotted        bool
 	measures      []int
+	errFaults     bool
 }
 
 func (r *runner) probe(name string) {
@@ -150,6 +151,8 @@ func RunCase(t *testing.T, c *Case, wantTrace bool) *RunOut {
 	switch c.Scenario {
 	case "conc":
 		main = r.mainConc
+	case "conccrash":
+		main = r.mainConcCrash
 	case "life":
 		main = r.mainLife
 	case "recover":
